@@ -30,6 +30,12 @@ type c12Addr struct{}
 func (c12Addr) Network() string { return "tcp" }
 func (c12Addr) String() string  { return "10.0.0.7:7777" }
 
+// every connection has its own remote address (the local one is the listen address)
+type c12Remote struct{ id int }
+
+func (c12Remote) Network() string   { return "tcp" }
+func (a c12Remote) String() string { return "10.0.0.8:" + string([]byte{byte('5'), byte('0'), byte('0'), byte('0'), byte('0' + a.id)}) }
+
 type c12Conn struct {
 	in       chan []byte
 	closedCh chan struct{}
@@ -40,6 +46,7 @@ type c12Conn struct {
 	writes   [][]byte
 	readBytes int32
 	writesAfterClose int32
+	id       int
 }
 
 func (c *c12Conn) Read(b []byte) (int, error) {
@@ -92,7 +99,7 @@ func (c *c12Conn) Close() error {
 	return nil
 }
 func (c *c12Conn) LocalAddr() net.Addr           { return c12Addr{} }
-func (c *c12Conn) RemoteAddr() net.Addr          { return c12Addr{} }
+func (c *c12Conn) RemoteAddr() net.Addr          { return c12Remote{c.id} }
 func (c *c12Conn) SetDeadline(t time.Time) error {
 	_ = c.SetWriteDeadline(t)
 	return c.SetReadDeadline(t)
@@ -122,11 +129,13 @@ func c12Now() int64 { return int64(time.Since(c12Start)) }
 type c12Listener struct {
 	conns  chan net.Conn
 	closed int32
+	handed int32 // connections actually accepted by the server
 }
 
 func (l *c12Listener) Accept() (net.Conn, error) {
 	select {
 	case c := <-l.conns:
+		atomic.AddInt32(&l.handed, 1)
 		return c, nil
 	default:
 	}
@@ -239,20 +248,38 @@ func VerifC12TwoConns() {
 	h.listener = ln
 	h.pool = newC12Pool(1)
 	a := &c12Conn{in: make(chan []byte, 4), closedCh: make(chan struct{})}
-	b := &c12Conn{in: make(chan []byte, 4), closedCh: make(chan struct{})}
+	b := &c12Conn{in: make(chan []byte, 4), closedCh: make(chan struct{}), id: 1}
 	a.in <- []byte{0, 0, 0, 5, 'L'}
 	ln.conns <- a
 	go func() { _ = h.Handle() }()
 	time.Sleep(50 * time.Millisecond)
-	b.in <- []byte{0, 0, 0, 5, 'q'}
+	// the second connection either has a request of its own (queued behind A's) or is an idle
+	// keep-alive connection opened later
+	bIdle := vapi.Bool("bidle")
+	if !bIdle {
+		b.in <- []byte{0, 0, 0, 5, 'q'}
+	}
 	ln.conns <- b
 	time.Sleep(time.Duration(1+vapi.Choice("when", 2)) * 150 * time.Millisecond)
 	ctx, cancel := context.WithTimeout(context.Background(), 20*time.Second)
 	err := ts.Shutdown(ctx)
 	cancel()
 	vapi.Check(err == nil, "Shutdown returns without error")
+	// at the moment Shutdown returns every request already received has been answered
+	vapi.Check(atomic.LoadInt32(&proto.finished) == atomic.LoadInt32(&proto.started), "two connections: Shutdown returns only after the requests in flight have finished")
 	vapi.Quiesce()
-	for _, c := range []*c12Conn{a, b} {
+	for i, c := range []*c12Conn{a, b} {
+		if i >= int(atomic.LoadInt32(&ln.handed)) {
+			continue // never accepted by the server (Shutdown came first): nothing is owed to it
+		}
+		notified := 0
+		for _, w := range c.writes {
+			if len(w) >= 5 && w[4] == 'C' {
+				notified++
+			}
+		}
+		vapi.Check(notified >= 1, "two connections: every connected client is sent the reconnect notification")
+		vapi.Check(atomic.LoadInt32(&c.closed) == 1, "two connections: every connection is closed once drained")
 		read := int(atomic.LoadInt32(&c.readBytes)) / 5
 		answered := 0
 		for _, w := range c.writes {
